@@ -78,7 +78,7 @@ def handle (args : List String) : String :=
           (if comps == "-" then some [] else (comps.splitOn ";").mapM parseNats) with
     | some ks, some es, some cs =>
       let g : Graph := ⟨es, fun n => ks.getD n .other⟩
-      if validOrder g cs then "valid=1" else "valid=0"
+      if validOrder g cs then (if validScc g cs then "valid=1" else "valid=1-but-not-scc") else "valid=0"
     | _, _, _ => "bad-op"
   | _ => "bad-op"
 
